@@ -31,32 +31,32 @@ const (
 
 // inv is one loader invocation.
 type inv struct {
-	Bulk    bool            `json:"bulk"`
-	Reload  bool            `json:"reload"`
-	Keys    []int           `json:"keys"`
-	Enter   int64           `json:"enter"`
-	Exit    int64           `json:"exit"`
-	Out     int             `json:"out"`
-	Vals    map[int]int     `json:"vals,omitempty"` // value returned per key
-	Caller  int             `json:"caller"`
-	Trigger int64           `json:"trigger"` // call time of the API call that passed this loader
-	ID      int             `json:"id"`
+	Bulk    bool        `json:"bulk"`
+	Reload  bool        `json:"reload"`
+	Keys    []int       `json:"keys"`
+	Enter   int64       `json:"enter"`
+	Exit    int64       `json:"exit"`
+	Out     int         `json:"out"`
+	Vals    map[int]int `json:"vals,omitempty"` // value returned per key
+	Caller  int         `json:"caller"`
+	Trigger int64       `json:"trigger"` // call time of the API call that passed this loader
+	ID      int         `json:"id"`
 }
 
 type lcall struct {
-	W     int    `json:"w"`
-	Kind  string `json:"kind"` // Get BulkGet Refresh BulkRefresh Set Invalidate
-	Keys  []int  `json:"keys"`
-	Call  int64  `json:"call"`
-	Ret   int64  `json:"ret"`
-	Val   int    `json:"val,omitempty"`
-	Res   map[int]int `json:"res,omitempty"`
-	Err   string `json:"err,omitempty"`
-	Panic bool   `json:"panic,omitempty"`
-	Msgs  int    `json:"msgs"`
-	ErrID int    `json:"err_id,omitempty"` // id of the failed invocation whose result this call returned
-	OwnPanic bool `json:"own_panic,omitempty"`
-	NilChan  bool `json:"nil_chan,omitempty"`
+	W        int         `json:"w"`
+	Kind     string      `json:"kind"` // Get BulkGet Refresh BulkRefresh Set Invalidate
+	Keys     []int       `json:"keys"`
+	Call     int64       `json:"call"`
+	Ret      int64       `json:"ret"`
+	Val      int         `json:"val,omitempty"`
+	Res      map[int]int `json:"res,omitempty"`
+	Err      string      `json:"err,omitempty"`
+	Panic    bool        `json:"panic,omitempty"`
+	Msgs     int         `json:"msgs"`
+	ErrID    int         `json:"err_id,omitempty"` // id of the failed invocation whose result this call returned
+	OwnPanic bool        `json:"own_panic,omitempty"`
+	NilChan  bool        `json:"nil_chan,omitempty"`
 
 	ch  <-chan otter.RefreshResult[int, int]
 	bch <-chan []otter.RefreshResult[int, int]
@@ -64,36 +64,36 @@ type lcall struct {
 }
 
 type burstCfg struct {
-	Seed    uint64 `json:"seed"`
-	Index   int    `json:"index"`
-	G       int    `json:"goroutines"`
-	Keys    int    `json:"keys"`
-	Rounds  int    `json:"rounds"`
-	Mixed   bool   `json:"mixed"` // Set / Invalidate too
-	Max     int    `json:"max"`   // 0 = unbounded
-	HoldUs  int    `json:"hold_us"`
-	DelayPerM int  `json:"delay_per_mille"`
-	OutW    []int  `json:"outcome_weights"`
+	Seed      uint64 `json:"seed"`
+	Index     int    `json:"index"`
+	G         int    `json:"goroutines"`
+	Keys      int    `json:"keys"`
+	Rounds    int    `json:"rounds"`
+	Mixed     bool   `json:"mixed"` // Set / Invalidate too
+	Max       int    `json:"max"`   // 0 = unbounded
+	HoldUs    int    `json:"hold_us"`
+	DelayPerM int    `json:"delay_per_mille"`
+	OutW      []int  `json:"outcome_weights"`
 }
 
 type burst struct {
-	cfg    burstCfg
-	cache  *otter.Cache[int, int]
-	base   time.Time
-	mu     sync.Mutex
-	invs   []*inv
-	calls  []lcall
-	evs    []Ev
-	evict  []int64 // evictNode.enter times
-	wg     sync.WaitGroup
-	valCtr atomic.Int64
-	rngCtr atomic.Uint64
-	execPanics atomic.Int64
-	emptyBulk  atomic.Pointer[string]
+	cfg            burstCfg
+	cache          *otter.Cache[int, int]
+	base           time.Time
+	mu             sync.Mutex
+	invs           []*inv
+	calls          []lcall
+	evs            []Ev
+	evict          []int64 // evictNode.enter times
+	wg             sync.WaitGroup
+	valCtr         atomic.Int64
+	rngCtr         atomic.Uint64
+	execPanics     atomic.Int64
+	emptyBulk      atomic.Pointer[string]
 	nilLoaderCalls atomic.Int64
 }
 
-func (b *burst) now() int64 { return int64(time.Since(b.base)) }
+func (b *burst) now() int64  { return int64(time.Since(b.base)) }
 func (b *burst) rnd() uint64 { return core.Mix(b.cfg.Seed ^ b.rngCtr.Add(1)) }
 
 var errLoaderFailed = errors.New("loader failed")
